@@ -77,6 +77,54 @@ Theorem C17_not_connected :
 Proof. exact not_connected_errors. Qed.
 Print Assumptions C17_not_connected.
 
+(* ---- the transport object over its whole life (Stream.trun: connects that may fail,
+   disconnects whose close may fail, the peer feeding / ending the stream, reads, writes) ---- *)
+
+(* "disconnecting absorbs OS-level errors": in every state, whether closing fails or not,
+   disconnect returns normally, closes the writer iff there is one, and touches nothing else *)
+Theorem C17_disconnect_total :
+  forall limit s f,
+    snd (tstep limit s (TDisconnect f)) = TDone
+    /\ ts_closes (fst (tstep limit s (TDisconnect f))) = (if ts_streams s then S (ts_closes s) else ts_closes s)
+    /\ ts_out (fst (tstep limit s (TDisconnect f))) = ts_out s
+    /\ ts_reader (fst (tstep limit s (TDisconnect f))) = ts_reader s.
+Proof. exact disconnect_total. Qed.
+Print Assumptions C17_disconnect_total.
+
+(* "a failed connection attempt ... surfaces as a transport error" (and changes nothing) *)
+Theorem C17_connect_failure :
+  forall limit s, tstep limit s (TConnect false) = (s, TConnectError).
+Proof. exact connect_failure. Qed.
+Print Assumptions C17_connect_failure.
+
+(* "using the transport before it was connected raises a transport error": in EVERY history
+   without a successful connect — failed connects, disconnects, whatever the peer does —
+   every read and every write gives it, and nothing is ever closed *)
+Theorem C17_never_connected :
+  forall limit ops,
+    forallb (fun o => negb (is_connect_ok o)) ops = true ->
+    Forall2 (fun o x => uses o = true -> x = TRes RNotConnected) ops (snd (trun limit ts_init ops))
+    /\ ts_closes (fst (trun limit ts_init ops)) = 0%nat.
+Proof. exact never_connected. Qed.
+Print Assumptions C17_never_connected.
+
+Theorem C17_connect_fresh :
+  forall limit s,
+    let s1 := fst (tstep limit s (TConnect true)) in
+    ts_streams s1 = true /\ ts_reader s1 = {| r_buf := []; r_eof := false |} /\ ts_out s1 = [] /\ ts_closes s1 = ts_closes s.
+Proof. exact connect_fresh. Qed.
+Print Assumptions C17_connect_fresh.
+
+Example C17_session_example :
+  snd (trun 64 ts_init
+         [TRead false; TConnect false; TWrite [49]%N WOk; TDisconnect true; TConnect true; TFeed [49; 10; 50]%N;
+          TRead false; TRead false; TEof; TRead false; TWrite [50; 10]%N WOk; TWrite [51]%N WOSError; TRead true;
+          TDisconnect true; TDisconnect false])
+  = [TRes RNotConnected; TConnectError; TRes RNotConnected; TDone; TDone; TDone;
+     TRes (RLine [49; 10]%N); TPending; TDone; TRes (RReadError (Some [50]%N)); TRes (RLine [50; 10]%N); TRes RFailed; TRes RFailed;
+     TDone; TDone].
+Proof. vm_compute. reflexivity. Qed.
+
 Example C17_example :
   fst (srun 8 {| r_buf := []; r_eof := false |}
          [SRead; SFeed [49; 59]%N; SRead; SFeed [50; 10; 255]%N; SRead; SFeed [10; 120]%N; SRead; SRead; SEof; SRead])
